@@ -23,7 +23,7 @@ impl Prop for C04 {
     type Case = StoreCase;
     fn id(&self) -> &'static str { "C04" }
     fn expected_counters(&self) -> Vec<&'static str> { vec!["fault.index_rebuild", "probe.rebuild_with_empty_named_graph", "probe.serde_roundtrip"] }
-    fn budget(&self, tier: Tier) -> Budget { match tier { Tier::Quick => Budget { runs: 6000, wall_s: 60, recheck: 30 }, Tier::Thorough => Budget { runs: 300_000, wall_s: 1500, recheck: 100 } } }
+    fn budget(&self, tier: Tier) -> Budget { match tier { Tier::Quick => Budget { runs: 6000, wall_s: 60, recheck: 30 }, Tier::Thorough => Budget { runs: 300_000, wall_s: 1000, recheck: 100 } } }
     fn hash_seed(&self, c: &StoreCase) -> u64 { c.hash_seed }
     fn gen(&self, seed: u64, _i: u64, _t: Tier) -> StoreCase {
         let mut r = Rng::sub(seed, "workload"); let mut cfg = Rng::sub(seed, "swarm");
